@@ -6,6 +6,21 @@ props = [json.loads(l) for l in open(os.path.join(ROOT, 'properties.jsonl'))]
 
 # id -> (category, technique, level text, level note, design_ref)
 CLAIMS = {
+ "C01": ("fault_enumeration",
+         "crash-image enumeration over SimDir operation logs of generated histories (proptest) against a recovery predicate and the sequential model",
+         "Every storage-operation boundary (thorough) / every boundary next to a metadata, updater or merge operation plus a stride (quick) of generated histories is combined with the persistence outcomes the property quantifies over (MIN, MAX, renames-only, unlinks-only, creates-only, ordered prefixes, independent random subsets; un-synced bytes lost/empty/truncated/full) and each image must open, expose exactly one acceptable commit, pass checksums, equal the model and accept writer+commit+gc.",
+         "durability semantics are a model of the Directory contract as MmapDirectory implements it (checked by reading its syscalls), not an executed power cut; crash points are storage-operation boundaries; schedules of background threads are those the OS produced in the single run of each history",
+         "DESIGN.md §3 C01"),
+ "C02": ("exploration",
+         "model-based stateful testing: generated operation histories vs a pure sequential model (proptest), plus concurrent producers with per-producer sequential replay",
+         "Generated histories over the full writer API and configuration space are checked against a sequential model after every commit / abort / rollback / merge / reopen, including opstamp laws; concurrent producers are checked by per-producer sequential replay and opstamp-range disjointness.",
+         "thread interleavings are sampled (steered by the flush-every-N and pause-point hooks), never enumerated; document shapes are small (uid, group, 0-4 words, a number)",
+         "DESIGN.md §3 C02"),
+ "C10": ("exploration",
+         "quiescence (no-orphan / nothing-missing) predicate over generated histories on SimDir and MmapDirectory, and over recovered crash images (proptest)",
+         "After every commit under NoMergePolicy and at the end of every generated history (merges joined, gc run) the directory listing must equal meta.json + committed segment files and .managed.json must match; crash images of generated histories are recovered, committed to, collected and checked for orphans.",
+         "GC/worker/merge races are those the OS schedule produces in generated histories (gated races are a planned extension); transient survivors are re-collected up to 5 times before being reported",
+         "DESIGN.md §3 C10"),
  "C20": ("fault_enumeration",
          "generated write patterns + enumerated/generated file damage vs Index::validate_checksum (proptest, independent crc32)",
          "Every damage class named by the property (single bit, byte substitution, multi-byte, body truncation, whole-file truncation, insertion, extension, unsupported footer versions) is generated against generated small indexes; small files get every single bit flipped and every body truncation length. Exploration of the index/file space, enumeration of the damage positions.",
